@@ -222,6 +222,57 @@ theorem C13_collapse_spec_second_reference (c : Compact.Compact) (w : Nat) (hv :
         (o.stats[j]?).bind (·[ch]?) = some (stat ((partners (swap c) j).map (chan ch))) :=
   C13_collapse_spec (swap c) w (valid_swap hv) (by cases h : c.pairs <;> simp_all [swap])
 
+/-- **C13_collapse_ok_inv** — `collapse` never returns silently on a dataset whose reference
+side is malformed: a result exists only if there is at least one pair, all reference indices
+are below the number of stored reference points, all partner indices are inside the other
+group, and the reference group stores exactly as many points as there are distinct
+reference indices. -/
+theorem C13_collapse_ok_inv (c : Compact.Compact) (w : Nat) (o : Collapsed)
+    (h : collapse c w = .ok o) :
+    c.pairs ≠ [] ∧ (∀ p ∈ c.pairs, p.1 < c.P.length ∧ p.2 < c.S.length) ∧
+    c.P.length = (uniq (refs c)).length := by
+  simp only [collapse] at h
+  split at h
+  · simp at h
+  · rename_i hemp
+    split at h
+    · rename_i rs vals hrs hvals
+      split at h
+      · simp at h
+      · rename_i hany
+        split at h
+        · simp at h
+        · rename_i hlen
+          have hlen' : c.P.length = (uniq (refs c)).length := by
+            by_contra hc; exact hlen hc
+          refine ⟨?_, ?_, hlen'⟩
+          · intro hp; apply hemp; simp [refs, hp]
+          · intro p hp
+            have h1 : ¬ (uniq (refs c)).length ≤ p.1 := by
+              intro hle
+              apply hany
+              rw [List.any_eq_true]
+              exact ⟨p.1, List.mem_map.mpr ⟨p, hp, rfl⟩, by simpa using hle⟩
+            have h2 := gather_some_bound hvals p.2 (List.mem_map.mpr ⟨p, hp, rfl⟩)
+            exact ⟨by omega, h2⟩
+    · simp at h
+
+/-- … and then every stored reference point has a partner: a successful `collapse` implies the
+reference side of `Valid`. -/
+theorem C13_collapse_ok_ref_used (c : Compact.Compact) (w : Nat) (o : Collapsed)
+    (h : collapse c w = .ok o) : ∀ i, i < c.P.length → ∃ p ∈ c.pairs, p.1 = i := by
+  obtain ⟨-, hb, hl⟩ := C13_collapse_ok_inv c w o h
+  have hsub : uniq (refs c) ⊆ List.range c.P.length := by
+    intro x hx
+    obtain ⟨p, hp, e⟩ := List.mem_map.mp (mem_uniq.mp hx)
+    exact List.mem_range.mpr (e ▸ (hb p hp).1)
+  have hperm : (uniq (refs c)).Perm (List.range c.P.length) :=
+    ((nodup_uniq _).subperm hsub).perm_of_length_le (by simp [hl])
+  intro i hi
+  have : i ∈ uniq (refs c) := hperm.mem_iff.mpr (List.mem_range.mpr hi)
+  obtain ⟨p, hp, e⟩ := List.mem_map.mp (mem_uniq.mp this)
+  exact ⟨p, hp, e⟩
+
 /-- the partners of `j` after the swap are the primary points paired with secondary `j` -/
 theorem C13_partners_swap (c : Compact.Compact) (j : Nat) :
     partners (swap c) j = (c.pairs.filter (fun p => p.2 == j)).filterMap (fun p => c.P[p.1]?) := by
@@ -334,5 +385,6 @@ example : (stat [some 1, none, some 3]).mean = some 2 ∧ (stat [some 1, none, s
   constructor <;> simp [stat, Stat.mean, Stat.var] <;> norm_num
 
 assert_axioms C13_compact_valid C13_compact_total C13_compact_expand C13_rows_injective C13_matrix_spec
-  C13_collapse_spec C13_collapse_spec_second_reference C13_partners_swap C13_mean_var
+  C13_collapse_spec C13_collapse_spec_second_reference C13_collapse_ok_inv C13_collapse_ok_ref_used
+  C13_partners_swap C13_mean_var
   C13_expand_spec C13_expand_error C13_concat_expand C13_concat_valid
